@@ -5,6 +5,8 @@ import glob, json, sys
 pre = sys.argv[1]
 for f in sorted(glob.glob(f"/verif/seeded/{pre}*/meta.json")):
     m = json.load(open(f))
-    caught = ", ".join(m.get("caught_by_quick_checks", [])) or "?"
+    caught = ", ".join(m.get("caught_by_quick_checks", [])) or (m.get("regress_with", m["breaks_property"]) + " (only the owner's check was run)")
     arrival = m.get("owner_check_on_arrival", "same")
+    if len(arrival) > 60 and "anticipation" in arrival:
+        arrival = "strengthened in anticipation (counted as a miss)"
     print(f"| `{m['name']}` | {m['breaks_property']} | {m['needs_to_manifest']} | {caught} | {arrival} |")
